@@ -39,7 +39,7 @@ def scripts(rng, quick):
         for n in (2, 3):
             for combo in itertools.permutations(ops, n):
                 evs = [o['ev'] for o in combo if o['op'] == 'queue']
-                if len(set(evs)) == len(evs) and rng.random() < (1.0 if n == 2 else 0.25):
+                if len(set(evs)) == len(evs) and rng.random() < (0.5 if n == 2 else 0.06):
                     base.append(list(combo) + [S])
     return base
 
@@ -68,7 +68,7 @@ def main(prop, tier, seed, replay_path=None):
     else:
         scr = scripts(rng, quick)
         d = tlc.workdir('C20_runner')
-        consts = dict(Scripts=None, ExecAlls={False, True}, Fin=FIN, MaxCycles=3 if quick else 4, EmitEdges=True)
+        consts = dict(Scripts=None, ExecAlls={False, True}, Fin=FIN, MaxCycles=3, EmitEdges=True)
         defs = ['MC_Scripts == {' + ', '.join(tlc.tla_value(s) for s in scr) + '}']
         consts.pop('Scripts')
         tlc.write_mc(d, 'Runner', consts, defs=defs, view='View', constraints=['Bounded'], action_constraints=['Emit'],
@@ -102,6 +102,9 @@ def main(prop, tier, seed, replay_path=None):
             if not (nxt and nxt[0] == k[0] and nxt[1] == k[1] and nxt[2].startswith(k[2])):
                 leaves.append(hs[k])
         nedges = len(hs)
+        cap = 40000 if quick else 90000        # bound the real-thread replay: a seeded sample of the maximal schedules
+        if len(leaves) > cap:
+            leaves = rng.sample(leaves, cap)
         jobs = [(i + 1, s, x, h) for i, (s, x, h) in enumerate(leaves)]
     with multiprocessing.Pool(16) as pool:
         res = pool.map(_replay, jobs, chunksize=max(1, len(jobs) // 256))
